@@ -840,6 +840,15 @@ protected:
       {
         // Handle chunked encoding
         requestEndPos = findChunkedRequestEnd(dataStr, headerEnd + 4);
+        if (requestEndPos == CHUNKED_MALFORMED)
+        {
+          // Invalid chunk framing can never become a valid message: reject (close)
+          // instead of waiting for more data. No lock held; guarded close.
+          iora::core::Logger::error("HttpServer: Malformed chunked body for session " +
+                                    std::to_string(sid) + " - closing connection");
+          closeSession(sid);
+          return;
+        }
         if (requestEndPos == std::string::npos)
         {
           break; // Need more data for chunked body
@@ -1369,7 +1378,13 @@ protected:
                               std::to_string(sid));
   }
 
-  /// \brief Find the end of a chunked request body
+  /// \brief Returned by findChunkedRequestEnd for chunk framing that can never
+  /// become valid (std::string::npos keeps meaning "need more data").
+  static constexpr std::size_t CHUNKED_MALFORMED = std::string::npos - 1;
+
+  /// \brief Find the end of a chunked request body (RFC 9112 §7.1). Returns the
+  /// offset one past the message, std::string::npos if more data is needed, or
+  /// CHUNKED_MALFORMED if the chunk framing is invalid.
   std::size_t findChunkedRequestEnd(const std::string &data, std::size_t bodyStart) const
   {
     std::size_t pos = bodyStart;
@@ -1383,17 +1398,36 @@ protected:
         return std::string::npos; // Need more data
       }
 
-      // Parse chunk size (hex)
-      std::string chunkSizeStr = data.substr(pos, chunkSizeLine - pos);
-      std::size_t chunkSize;
-      try
+      // Parse chunk size: chunk-size = 1*HEXDIG, optionally followed by BWS and
+      // ";" chunk extensions. Parsed by hand - std::stoul accepts a sign, "0x",
+      // leading whitespace and trailing junk, and an unparsable line used to be
+      // reported as "need more data", so the connection stalled forever instead
+      // of being rejected.
+      std::size_t chunkSize = 0;
+      std::size_t i = pos;
+      for (; i < chunkSizeLine && std::isxdigit(static_cast<unsigned char>(data[i])); ++i)
       {
-        chunkSize = std::stoul(chunkSizeStr, nullptr, 16);
+        const char ch = data[i];
+        const std::size_t digit = (ch >= '0' && ch <= '9')   ? static_cast<std::size_t>(ch - '0')
+                                  : (ch >= 'a' && ch <= 'f') ? static_cast<std::size_t>(ch - 'a' + 10)
+                                                             : static_cast<std::size_t>(ch - 'A' + 10);
+        chunkSize = chunkSize * 16 + digit;
+        if (chunkSize > SessionInfo::MAX_BODY_SIZE)
+        {
+          // Beyond the body cap (checked per digit, so the value cannot overflow).
+          iora::core::Logger::error("HttpServer: Chunk size exceeds body size limit");
+          return CHUNKED_MALFORMED;
+        }
       }
-      catch (...)
+      const bool noDigits = (i == pos);
+      while (i < chunkSizeLine && (data[i] == ' ' || data[i] == '\t'))
+      {
+        ++i;
+      }
+      if (noDigits || (i < chunkSizeLine && data[i] != ';'))
       {
         iora::core::Logger::error("HttpServer: Invalid chunk size in chunked encoding");
-        return std::string::npos;
+        return CHUNKED_MALFORMED;
       }
 
       pos = chunkSizeLine + 2; // Skip \r\n
@@ -1417,6 +1451,11 @@ protected:
       if (available < chunkSize || available - chunkSize < 2)
       {
         return std::string::npos; // Need more data
+      }
+      if (data[pos + chunkSize] != '\r' || data[pos + chunkSize + 1] != '\n')
+      {
+        iora::core::Logger::error("HttpServer: Chunk data is not followed by CRLF");
+        return CHUNKED_MALFORMED;
       }
       pos += chunkSize + 2;
     }
